@@ -335,8 +335,7 @@ def mpPost (pmp : MPParams → M Str) (pcs : CSParams → M Str) (P : MPParams) 
                           allowesc := if st.sawdollar then true else P.allowesc,
                           dquote := P.dquote, firstclose := P.firstclose, dolbrace := P.dolbrace }
       popDelimiter
-      if st.sawdollar && c == '\'' then pure ()
-      else if st.sawdollar && c == '"' then st := { st with ret := pyDropLastN st.ret 2 }
+      -- (`$'…'` and, since fix D41, `$"…"` are kept as written)
       st := { st with ret := st.ret ++ nestret }
     else if P.arraysub && st.sawdollar && isDolOpen c then
       let r ← handledollarword pmp pcs P rdquote c
